@@ -441,7 +441,7 @@ func ruleC04Units(c *Ctx) {
 // posPassThrough: callees whose record/block parameters are plain "a position", not specifically the content one.
 func posPassThrough(name string) bool {
 	switch name {
-	case "Index", "Query", "Fetch", "indexHeader", "SeekToRecordOnTape":
+	case "Index", "Query", "indexHeader", "SeekToRecordOnTape":
 		return true
 	}
 	return false
